@@ -345,3 +345,71 @@ def other_commands(rep, tier, work):
         elif not x['ok']:
             rep.violation(f"crash:{it['cmd']}:{env.canon_hash(it['gtf'])}", f"{it['cmd']} raised {x['error']}", it)
     return out
+
+
+def check_c03(tier):
+    rep = report.Report('C03', tier)
+    rep.cov['rule'] = ("campaign of C01 (linear transcripts, small variants): every (peptide, header entry) pair of every FASTA is "
+                       "checked by TLC: named backbone exists, every named variant id is a record of that transcript in the input, "
+                       "applying exactly the named variants yields a translation in which the peptide is a digestion product, and no "
+                       "entry string occurs twice; non-trivial = FASTA with at least one entry")
+    work = env.scratch('c03_')
+    items = campaign(rep, tier, work, salt='cv')
+    # headers are most interesting with frameshifts: add indel-rich cases
+    r = env.rng('c03extra')
+    extra = []
+    for i in range(120 if tier == 'quick' else 4000):
+        it = make_case(r, 'base', work, 100000 + i, tier)
+        if it:
+            extra.append(it)
+    items += extra
+    flat, err = run_tool(items)
+    if err:
+        rep.machinery(err)
+        return rep.finish()
+    cases, keep = [], []
+    for it, x in zip(items, flat):
+        if not x['ok']:
+            continue
+        idx = {t['tx']['id']: k + 1 for k, t in enumerate(it['case']['txs'])}
+        entries = []
+        for h, s in x['fasta']:
+            for e in h.split(' '):
+                f = e.split('|')
+                ids = [y for y in f[1:-1] if not re.fullmatch(r'ORF\d+', y)]
+                entries.append(dict(tx=idx.get(f[0], 0), ids=ids, seq=list(s), label=e))
+        c = dict(txs=it['case']['txs'], cfg=it['case']['cfg'], entries=entries)
+        cases.append(c); keep.append((it, x, len(entries)))
+    verdicts = tlc_cases('HeaderOracle', cases, work, 'hdr', rep)
+    n_entries = 0
+    for (it, x, ne), vs in zip(keep, verdicts):
+        key = env.canon_hash([it['gtf'], it['variants'], it['cfg'], it['mode']])
+        rep.traces(1); rep.case(1, key if ne else None)
+        n_entries += ne
+        if not vs:
+            rep.machinery(f"no verdict for header case {key}")
+        for v in vs:
+            kind = re.match(r'"(\w+)"', v).group(1)
+            if kind == 'ok':
+                continue
+            labels = re.findall(r'"([^"]+\|[^"]*)"', v)
+            ro = replay_obj(it, [s for _, s in x['fasta']], [], [])
+            ro['headers'] = x['fasta']
+            if kind == 'missing_frameshift':
+                rep.violation('header_omits_upstream_frameshift', f"header entries {labels[:4]} omit a frameshifting variant that is "
+                              f"needed to produce the peptide", ro)
+            elif kind == 'duplicate_entry':
+                rep.violation(f"dup:{key}", "a header entry string occurs twice in one FASTA", ro)
+            else:
+                ctxk = 'context' if (it['cfg']['rule'] in LOOKBEHIND or it['cfg']['exc']) else None
+                if it['mode'] == 'collapse' and it['args'].get('naa_to_collapse', 5) < 2:
+                    rep.violation(known_key(it, 'collapse_naa1'), f"header entries {labels[:4]} are not witnesses (--naa-to-collapse 1)", ro)
+                elif ctxk:
+                    rep.violation(known_key(it, 'context'), f"header entries {labels[:4]} are not witnesses (context-dependent rule)", ro)
+                else:
+                    rep.violation(f"witness:{key}", f"header entries {labels[:4]} are not truthful witnesses: applying exactly the named "
+                                  f"variants does not yield the peptide (mode {it['mode']}, rule {it['cfg']['rule']})", ro)
+    rep.part('headers', entries_checked=n_entries)
+    if keep:
+        rep.sample(dict(variants=keep[0][0]['variants'], fasta=keep[0][1]['fasta'][:5]))
+    return rep.finish()
